@@ -8,15 +8,54 @@ Table-level side conditions (`decide +kernel`): no `ANSI_COLOR_NAMES` entry star
 namespace RichModel
 open AsciiStr
 namespace Style
+variable {T : StrTables} [hT : T.Lawful]
 
+/-- ASCII characters that `lower()`/`strip()`/`split()` leave alone, whatever the tables. -/
+def plainChar (c : Char) : Bool := decide (c.toNat < 128) && !isSpace c && decide (lowerChar c = c)
 
-theorem hexLower_facts {c : Char} (h : isHexLower c = true) : isSpace c = false ∧ lowerChar c = c := by
+theorem plain_word {w : List Char} (h : ∀ c ∈ w, plainChar c = true) :
+    (∀ c ∈ w, T.isSpace c = false) ∧ T.lower w = w := by
+  have ha : allAscii w = true := mem_allAscii.mpr fun c hc => by
+    have := h c hc; simp only [plainChar, Bool.and_eq_true, decide_eq_true_eq] at this; exact this.1.1
+  have hs : w.all (fun c => !AsciiStr.isSpace c) = true := List.all_eq_true.mpr fun c hc => by
+    have := h c hc; simp only [plainChar, Bool.and_eq_true] at this; exact this.1.2
+  have hl : AsciiStr.lower w = w := by
+    unfold AsciiStr.lower
+    conv => rhs; rw [← List.map_id w]
+    apply List.map_congr_left
+    intro c hc
+    have := h c hc; simp only [plainChar, Bool.and_eq_true, decide_eq_true_eq] at this; exact this.2
+  obtain ⟨h1, h2⟩ := T.ascii_word ha hs
+  exact ⟨h1, h2 hl⟩
+
+/-! ### `#rrggbb` -/
+
+/-- `[0-9a-fA-F]` -/
+def isHex (c : Char) : Bool := isHexLower c || (65 ≤ c.toNat && c.toNat ≤ 70)
+
+omit hT in
+theorem hexLower_plain {c : Char} (h : isHexLower c = true) : plainChar c = true := by
   simp only [isHexLower, isDigit, Bool.or_eq_true, Bool.and_eq_true, decide_eq_true_eq] at h
-  constructor
-  · simp only [isSpace, Bool.or_eq_false_iff, Bool.and_eq_false_iff, decide_eq_false_iff_not]
+  have h1 : c.toNat < 128 := by omega
+  have h2 : isSpace c = false := by
+    simp only [isSpace, Bool.or_eq_false_iff, Bool.and_eq_false_iff, decide_eq_false_iff_not]
     omega
-  · have : ¬ (65 ≤ c.toNat ∧ c.toNat ≤ 90) := by omega
-    simp [lowerChar, this]
+  have h3 : ¬ (65 ≤ c.toNat ∧ c.toNat ≤ 90) := by omega
+  simp [plainChar, h1, h2, lowerChar, h3]
+
+omit hT in
+/-- Lower-casing a hex digit gives a lower-case hex digit (and an ASCII character stays ASCII). -/
+theorem isHex_lower {c : Char} (h : isHex c = true) : isHexLower (lowerChar c) = true ∧ c.toNat < 128 := by
+  by_cases hc : 65 ≤ c.toNat ∧ c.toNat ≤ 90
+  · exact upper_cases (fun c => isHex c = true → isHexLower (lowerChar c) = true ∧ c.toNat < 128) (by decide) c hc h
+  · have hl : lowerChar c = c := by simp [lowerChar, hc]
+    simp only [isHex, Bool.or_eq_true, Bool.and_eq_true, decide_eq_true_eq] at h
+    rcases h with h | h
+    · rw [hl]
+      refine ⟨h, ?_⟩
+      simp only [isHexLower, isDigit, Bool.or_eq_true, Bool.and_eq_true, decide_eq_true_eq] at h
+      omega
+    · omega
 
 theorem no_hash_names_tbl : Gen.ansiColorNames.all (fun p => p.1.head? != some '#') = true := by
   decide +kernel
@@ -27,23 +66,20 @@ def hexColor (a b c d e f : Char) : Color :=
     triplet := some ⟨16 * hexVal a + hexVal b, 16 * hexVal c + hexVal d, 16 * hexVal e + hexVal f⟩ }
 
 theorem hex_color_wf (v : StyleVariant) (a b c d e f : Char)
-    (h : [a, b, c, d, e, f].all isHexLower = true) : wfColor v (hexColor a b c d e f) = true := by
+    (h : [a, b, c, d, e, f].all isHexLower = true) : wfColorT T v (hexColor a b c d e f) = true := by
   simp only [List.all_cons, List.all_nil, Bool.and_true, Bool.and_eq_true] at h
   obtain ⟨ha, hb, hc, hd, he, hf⟩ := h
-  have hns : ∀ ch ∈ ['#', a, b, c, d, e, f], isSpace ch = false := by
+  have hpl : ∀ ch ∈ ['#', a, b, c, d, e, f], plainChar ch = true := by
     intro ch hch
     simp only [List.mem_cons, List.not_mem_nil, or_false] at hch
     rcases hch with rfl | rfl | rfl | rfl | rfl | rfl | rfl
     · decide
-    all_goals exact (hexLower_facts ‹_›).1
-  have hlow : lower ['#', a, b, c, d, e, f] = ['#', a, b, c, d, e, f] := by
-    simp only [lower, List.map_cons, List.map_nil, (hexLower_facts ha).2, (hexLower_facts hb).2,
-      (hexLower_facts hc).2, (hexLower_facts hd).2, (hexLower_facts he).2, (hexLower_facts hf).2]
-    rfl
+    all_goals exact hexLower_plain ‹_›
+  obtain ⟨hns, hlow⟩ := plain_word (T := T) hpl
   rw [wfColor_iff]
   refine ⟨hns, ?_⟩
-  show Color.parseNorm v (strip (lower ['#', a, b, c, d, e, f])) = .ok (hexColor a b c d e f)
-  rw [hlow, strip_noSpace hns]
+  show Color.parseNormT T v (T.strip (T.lower ['#', a, b, c, d, e, f])) = .ok (hexColor a b c d e f)
+  rw [hlow, T.strip_noSpace hns]
   have h1 : (['#', a, b, c, d, e, f] == cl! "default") = false := by
     simp
   have h2 : ansiColorNumber ['#', a, b, c, d, e, f] = none := by
@@ -54,28 +90,91 @@ theorem hex_color_wf (v : StyleVariant) (a b c d e f : Char)
     simp only [beq_iff_eq] at hpe
     rw [hpe] at this
     simp at this
-  have h3 : matchReColor ['#', a, b, c, d, e, f] = some (.hex [a, b, c, d, e, f]) := by
-    simp [matchReColor, ha, hb, hc, hd, he, hf]
-  unfold Color.parseNorm
+  have h3 : matchRe T ['#', a, b, c, d, e, f] = some (.hex [a, b, c, d, e, f]) := by
+    simp [matchRe, ha, hb, hc, hd, he, hf]
+  unfold Color.parseNormT
   simp only [h1, h2, h3, Bool.false_eq_true, if_false]
   rfl
 
+/-- `str.lower()` of `#` + six hex digits of either case. -/
+theorem lower_hex (a b c d e f : Char) (h : [a, b, c, d, e, f].all isHex = true) :
+    T.lower ['#', a, b, c, d, e, f] =
+      ['#', lowerChar a, lowerChar b, lowerChar c, lowerChar d, lowerChar e, lowerChar f] ∧
+    [lowerChar a, lowerChar b, lowerChar c, lowerChar d, lowerChar e, lowerChar f].all isHexLower = true ∧
+    ∀ ch ∈ ['#', a, b, c, d, e, f], T.isSpace ch = false := by
+  simp only [List.all_cons, List.all_nil, Bool.and_true, Bool.and_eq_true] at h
+  obtain ⟨ha, hb, hc, hd, he, hf⟩ := h
+  have hasc : allAscii ['#', a, b, c, d, e, f] = true := by
+    simp [allAscii, (isHex_lower ha).2, (isHex_lower hb).2, (isHex_lower hc).2, (isHex_lower hd).2,
+      (isHex_lower he).2, (isHex_lower hf).2]
+  refine ⟨by rw [T.lower_ascii hasc]; rfl, ?_, ?_⟩
+  · simp [(isHex_lower ha).1, (isHex_lower hb).1, (isHex_lower hc).1, (isHex_lower hd).1,
+      (isHex_lower he).1, (isHex_lower hf).1]
+  · intro ch hch
+    rw [T.isSpace_ascii hasc ch hch]
+    simp only [List.mem_cons, List.not_mem_nil, or_false] at hch
+    have sp : ∀ x, isHex x = true → isSpace x = false := by
+      intro x hx
+      simp only [isHex, isHexLower, isDigit, Bool.or_eq_true, Bool.and_eq_true, decide_eq_true_eq] at hx
+      simp only [isSpace, Bool.or_eq_false_iff, Bool.and_eq_false_iff, decide_eq_false_iff_not]
+      omega
+    rcases hch with rfl | rfl | rfl | rfl | rfl | rfl | rfl
+    · decide
+    all_goals exact sp _ ‹_›
 
+/-! ### `rgb(r,g,b)` -/
 
 /-- Decimal digits of `n` (what Python's `str(n)` gives). -/
 abbrev dec (n : Nat) : List Char := Nat.toDigits 10 n
 
-/-- Characters that `lower`/`strip` leave alone and that are not commas' business: -/
-def plainChar (c : Char) : Bool := !isSpace c && decide (lowerChar c = c)
-
 theorem digits_tbl :
     (List.range 256).all (fun n => (dec n).all (fun c => isDigit c && plainChar c && c != ',') && !(dec n).isEmpty &&
-      pyInt (dec n) == some n) = true := by
+      decide ((dec n).length ≤ 3) && decimalVal (dec n) == n) = true := by
   decide +kernel
 
 theorem no_paren_names_tbl : Gen.ansiColorNames.all (fun p => !p.1.contains '(') = true := by
   decide +kernel
 
+/-- `int()` of at most three ASCII digits, whatever the tables. -/
+theorem pyInt_digits {w : List Char} (hd : ∀ c ∈ w, isDigit c = true) (hne : w ≠ []) (hlen : w.length ≤ 3) :
+    T.pyInt w = some (decimalVal w) := by
+  have hasc : ∀ c ∈ w, c.toNat < 128 := by
+    intro c hc; have := hd c hc
+    simp only [isDigit, Bool.and_eq_true, decide_eq_true_eq] at this; omega
+  have hsp : ∀ c ∈ w, T.isIntSpace c = false := by
+    intro c hc; have := hd c hc
+    simp only [isDigit, Bool.and_eq_true, decide_eq_true_eq] at this
+    have h127 : c.toNat < 127 := by omega
+    simp only [StrTables.isIntSpace, h127, if_true, AsciiStr.isIntSpace, Bool.or_eq_false_iff,
+      Bool.and_eq_false_iff, decide_eq_false_iff_not, beq_eq_false_iff_ne, ne_eq]
+    omega
+  have hdw : ∀ (l : List Char), (∀ c ∈ l, T.isIntSpace c = false) → l.dropWhile T.isIntSpace = l := by
+    intro l hl
+    cases l with
+    | nil => rfl
+    | cons a r => simp [List.dropWhile, hl a (by simp)]
+  have hfold : ∀ (l : List Char) (acc : Nat), (∀ c ∈ l, isDigit c = true) →
+      l.foldl T.intStep (some acc) = some (l.foldl (fun a d => 10 * a + (d.toNat - 48)) acc) := by
+    intro l
+    induction l with
+    | nil => intro acc _; rfl
+    | cons x r ih =>
+      intro acc hx
+      have hxd := hx x (by simp)
+      have hx128 : x.toNat < 128 := by
+        simp only [isDigit, Bool.and_eq_true, decide_eq_true_eq] at hxd; omega
+      simp only [List.foldl_cons, StrTables.intStep, hT.decimal_ascii x hx128, hxd, if_true]
+      exact ih _ (fun c hc => hx c (by simp [hc]))
+  unfold StrTables.pyInt
+  simp only
+  rw [hdw w hsp, hdw w.reverse (by simpa using hsp), List.reverse_reverse]
+  have h1 : w.isEmpty = false := by simpa using hne
+  have h2 : ¬ (T.maxDigits ≠ 0 ∧ T.maxDigits < w.length) := by
+    rcases hT.digits_floor with h | h <;> omega
+  simp only [h1, h2, if_false, Bool.false_eq_true]
+  exact hfold w 0 hd
+
+omit hT in
 theorem splitCommaAux_word (w : List Char) (hw : ∀ c ∈ w, (c == ',') = false) (cur : List Char) :
     splitCommaAux w cur = [cur ++ w] := by
   induction w generalizing cur with
@@ -86,6 +185,7 @@ theorem splitCommaAux_word (w : List Char) (hw : ∀ c ∈ w, (c == ',') = false
     rw [ih (fun c hc => hw c (by simp [hc]))]
     simp
 
+omit hT in
 theorem splitCommaAux_comma (w : List Char) (hw : ∀ c ∈ w, (c == ',') = false) (rest cur : List Char) :
     splitCommaAux (w ++ ',' :: rest) cur = (cur ++ w) :: splitCommaAux rest [] := by
   induction w generalizing cur with
@@ -102,17 +202,18 @@ def rgbText (r g b : Nat) : List Char := cl! "rgb(" ++ (dec r ++ ',' :: (dec g +
 def rgbColor (r g b : Nat) : Color := { name := rgbText r g b, type := .truecolor, triplet := some ⟨r, g, b⟩ }
 
 theorem rgb_color_wf (v : StyleVariant) (r g b : Nat) (hr : r < 256) (hg : g < 256) (hb : b < 256) :
-    wfColor v (rgbColor r g b) = true := by
+    wfColorT T v (rgbColor r g b) = true := by
   have tbl : ∀ n, n < 256 → (∀ c ∈ dec n, isDigit c = true ∧ plainChar c = true ∧ (c == ',') = false) ∧
-      dec n ≠ [] ∧ pyInt (dec n) = some n := by
+      dec n ≠ [] ∧ T.pyInt (dec n) = some n := by
     intro n hn
     have := List.all_eq_true.mp digits_tbl n (List.mem_range.mpr hn)
     simp only [Bool.and_eq_true, List.all_eq_true, Bool.not_eq_true', List.isEmpty_eq_false_iff, beq_iff_eq,
-      bne_iff_ne, ne_eq] at this
-    obtain ⟨⟨h1, h2⟩, h3⟩ := this
-    refine ⟨fun c hc => ?_, h2, h3⟩
-    obtain ⟨⟨a1, a2⟩, a3⟩ := h1 c hc
-    exact ⟨a1, a2, by simpa using a3⟩
+      bne_iff_ne, ne_eq, decide_eq_true_eq] at this
+    obtain ⟨⟨⟨h1, h2⟩, hl⟩, h3⟩ := this
+    refine ⟨fun c hc => ?_, h2, ?_⟩
+    · obtain ⟨⟨a1, a2⟩, a3⟩ := h1 c hc
+      exact ⟨a1, a2, by simpa using a3⟩
+    · rw [pyInt_digits (fun c hc => (h1 c hc).1.1) h2 hl, h3]
   obtain ⟨r1, r2, r3⟩ := tbl r hr
   obtain ⟨g1, g2, g3⟩ := tbl g hg
   obtain ⟨b1, b2, b3⟩ := tbl b hb
@@ -125,23 +226,11 @@ theorem rgb_color_wf (v : StyleVariant) (r g b : Nat) (hr : r < 256) (hg : g < 2
     · exact (r1 c h).2.1
     · exact (g1 c h).2.1
     · exact (b1 c h).2.1
-  have hns : ∀ c ∈ rgbText r g b, isSpace c = false := by
-    intro c hc
-    have := hplain c hc
-    simp only [plainChar, Bool.and_eq_true, Bool.not_eq_true'] at this
-    exact this.1
-  have hlow : lower (rgbText r g b) = rgbText r g b := by
-    unfold lower
-    conv => rhs; rw [← List.map_id (rgbText r g b)]
-    apply List.map_congr_left
-    intro c hc
-    have := hplain c hc
-    simp only [plainChar, Bool.and_eq_true, decide_eq_true_eq] at this
-    exact this.2
+  obtain ⟨hns, hlow⟩ := plain_word (T := T) hplain
   rw [wfColor_iff]
   refine ⟨hns, ?_⟩
-  show Color.parseNorm v (strip (lower (rgbText r g b))) = .ok (rgbColor r g b)
-  rw [hlow, strip_noSpace hns]
+  show Color.parseNormT T v (T.strip (T.lower (rgbText r g b))) = .ok (rgbColor r g b)
+  rw [hlow, T.strip_noSpace hns]
   have h1 : (rgbText r g b == cl! "default") = false := by simp [rgbText]
   have h2 : ansiColorNumber (rgbText r g b) = none := by
     unfold ansiColorNumber
@@ -151,25 +240,30 @@ theorem rgb_color_wf (v : StyleVariant) (r g b : Nat) (hr : r < 256) (hg : g < 2
     simp only [beq_iff_eq] at hpe
     rw [hpe] at this
     simp [rgbText] at this
-  have hbody : ∀ c ∈ dec r ++ ',' :: (dec g ++ ',' :: dec b), (isDigit c || isSpace c || c == ',') = true := by
+  have hdig : ∀ c, isDigit c = true → (T.decimal c).isSome = true := by
+    intro c hc
+    have h128 : c.toNat < 128 := by
+      simp only [isDigit, Bool.and_eq_true, decide_eq_true_eq] at hc; omega
+    simp [hT.decimal_ascii c h128, hc]
+  have hbody : ∀ c ∈ dec r ++ ',' :: (dec g ++ ',' :: dec b),
+      ((T.decimal c).isSome || T.isSpace c || c == ',') = true := by
     intro c hc
     simp only [List.mem_append, List.mem_cons] at hc
     rcases hc with h | rfl | h | rfl | h
-    · simp [(r1 c h).1]
-    · decide
-    · simp [(g1 c h).1]
-    · decide
-    · simp [(b1 c h).1]
-  have h3 : matchReColor (rgbText r g b) = some (.rgb (dec r ++ ',' :: (dec g ++ ',' :: dec b))) := by
-    have hne : 1 ≤ (dec r ++ ',' :: (dec g ++ ',' :: dec b)).length := by simp; omega
-    simp only [rgbText, matchReColor, dropPrefix?, dropCloseParen?, List.cons_append, List.nil_append]
+    · simp [hdig c (r1 c h).1]
+    · simp
+    · simp [hdig c (g1 c h).1]
+    · simp
+    · simp [hdig c (b1 c h).1]
+  have h3 : matchRe T (rgbText r g b) = some (.rgb (dec r ++ ',' :: (dec g ++ ',' :: dec b))) := by
+    simp only [rgbText, matchRe, dropPrefix?, dropCloseParen?, List.cons_append, List.nil_append]
     simp [List.all_eq_true.mpr hbody]
   have h4 : splitComma (dec r ++ ',' :: (dec g ++ ',' :: dec b)) = [dec r, dec g, dec b] := by
     unfold splitComma
     rw [splitCommaAux_comma _ (fun c hc => (r1 c hc).2.2), splitCommaAux_comma _ (fun c hc => (g1 c hc).2.2),
       splitCommaAux_word _ (fun c hc => (b1 c hc).2.2)]
     simp
-  unfold Color.parseNorm
+  unfold Color.parseNormT
   simp only [h1, h2, h3, h4, r3, g3, b3, Bool.false_eq_true, if_false]
   have : (decide (r ≤ 255) && decide (g ≤ 255) && decide (b ≤ 255)) = true := by
     simp; omega
